@@ -1,7 +1,7 @@
 """C14 driver: Track and Composition behaviours."""
 from mingus.containers import Bar, Note, NoteContainer, Track, Composition
 from mingus.containers.instrument import Instrument, Piano, Guitar, MidiInstrument
-from .common import call, nm, txt, integer, boolean, Shape
+from .common import observe, call, nm, txt, integer, boolean, Shape
 from .values import build
 from .c13 import bar_proj, content
 
@@ -104,7 +104,7 @@ def run_case(c):
         t = Track(KINDS[c["instr"]]())
         twin = Track(KINDS[c["instr"]]())
         rec = call("track_new", {"instr": c["instr"]}, lambda: None, lambda _: 0)
-        rec["obs"] = state([t], [])
+        observe(rec, lambda: state([t], []), {})
         rec["ret"] = 2
         R.append(rec)
         done = []
@@ -115,7 +115,7 @@ def run_case(c):
                 box["r"] = apply_track(t, a, k)
             rec = call(a["op"], inp, f, lambda _: 0)
             rec["ret"] = retcode(box.get("r"))
-            rec["obs"] = state([t], [])
+            observe(rec, lambda: state([t], []), R[-1]["obs"])
             R.append(rec)
             try:
                 apply_track(twin, a, k)
@@ -131,7 +131,7 @@ def run_case(c):
         comp = Composition()
         twin = Composition()
         rec = call("comp_new", {}, lambda: None, lambda _: 0)
-        rec["obs"] = state(comp.tracks, comp.selected_tracks)
+        observe(rec, lambda: state(comp.tracks, comp.selected_tracks), {})
         rec["ret"] = 2
         R.append(rec)
         def ap(cc, a):
@@ -151,7 +151,7 @@ def run_case(c):
         for a in c["acts"]:
             inp = {kk: vv for kk, vv in a.items() if kk != "op"}
             rec = call(a["op"], inp, lambda: ap(comp, a), lambda _: 0)
-            rec["obs"] = state(comp.tracks, comp.selected_tracks)
+            observe(rec, lambda: state(comp.tracks, comp.selected_tracks), R[-1]["obs"])
             rec["ret"] = 2
             R.append(rec)
             try:
